@@ -3,6 +3,7 @@ package registry
 
 import (
 	"verif/props/c08"
+	"verif/props/c09"
 	"verif/props/c10"
 	"verif/props/c11"
 	"verif/sim/core"
@@ -12,6 +13,8 @@ func Get(id string) core.Property {
 	switch id {
 	case "C08":
 		return c08.New()
+	case "C09":
+		return c09.New()
 	case "C10":
 		return c10.New()
 	case "C11":
